@@ -228,6 +228,25 @@ macro_rules! entry1d_case {
                 ck(checks, format!("C13:{tag}:strided-buffer-accepted"), okr && got == flat_arr, format!("ok={okr}"));
                 let poison_left = big.iter().filter(|s| s.0 == poison.0).count();
                 ck(checks, format!("C14:{tag}:outside-window-untouched"), !okr || poison_left == total_big - flat_arr.len(), format!("{poison_left} of {}", total_big - flat_arr.len()));
+                // buffers that are strided along exactly one axis (every 2nd element of a larger array along that axis only)
+                for sax in 0..r_arr.ndim() {
+                    let mut big_dim = want_dim.clone();
+                    big_dim[sax] = big_dim[sax] * 2 + 1;
+                    let mut big1: Array<Sym, $B> = Array::from_elem(big_dim, poison);
+                    let r = catch_unwind(AssertUnwindSafe(|| {
+                        let mut v = big1.view_mut();
+                        v.slice_axis_inplace(Axis(sax), Slice::new(1, None, 2));
+                        interp.interp_array_into(&q, v)
+                    }));
+                    let okr = matches!(r, Ok(Ok(())));
+                    let got: Vec<u32> = { let mut v = big1.view_mut(); v.slice_axis_inplace(Axis(sax), Slice::new(1, None, 2)); v.iter().map(|s| s.0).collect() };
+                    ck(checks, format!("C13:{tag}:buffer-strided-along-axis{sax}"), okr && got == flat_arr, format!("ok={okr}"));
+                    // reversed along that one axis only
+                    let mut rb1: Array<Sym, $B> = Array::from_elem(want_dim.clone(), poison);
+                    rb1.invert_axis(Axis(sax));
+                    let r = catch_unwind(AssertUnwindSafe(|| interp.interp_array_into(&q, rb1.view_mut())));
+                    ck(checks, format!("C13:{tag}:buffer-reversed-along-axis{sax}"), matches!(r, Ok(Ok(()))) && ids(&rb1) == flat_arr, String::new());
+                }
                 // F-order buffer
                 let mut fbuf: Array<Sym, $B> = Array::from_elem(want_dim.clone().f(), poison);
                 let r = catch_unwind(AssertUnwindSafe(|| interp.interp_array_into(&q, fbuf.view_mut())));
@@ -326,6 +345,7 @@ entry1d_case!(e1_d1_q1, Ix1, Ix1, Ix1);
 entry1d_case!(e1_d2_q1, Ix2, Ix1, Ix2);
 entry1d_case!(e1_d3_q1, Ix3, Ix1, Ix3);
 entry1d_case!(e1_d4_q1, Ix4, Ix1, Ix4);
+entry1d_case!(e1_d5_q1, Ix5, Ix1, Ix5);
 entry1d_case!(e1_d1_q0, Ix1, Ix0, Ix0);
 entry1d_case!(e1_d2_q0, Ix2, Ix0, Ix1);
 entry1d_case!(e1_d1_q2, Ix1, Ix2, Ix2);
@@ -381,6 +401,7 @@ pub fn dispatch(cmd: &str, args: &[String], line: &str) {
                     (false, 2, false, 1) => run_strats!(e1_d2_q1, Ix2, tag, &ds, &qs, strat, &mut checks),
                     (false, 3, false, 1) => run_strats!(e1_d3_q1, Ix3, tag, &ds, &qs, strat, &mut checks),
                     (false, 4, false, 1) => run_strats!(e1_d4_q1, Ix4, tag, &ds, &qs, strat, &mut checks),
+                    (false, 5, false, 1) => run_strats!(e1_d5_q1, Ix5, tag, &ds, &qs, strat, &mut checks),
                     (false, 1, false, 0) => run_strats!(e1_d1_q0, Ix1, tag, &ds, &qs, strat, &mut checks),
                     (false, 2, false, 0) => run_strats!(e1_d2_q0, Ix2, tag, &ds, &qs, strat, &mut checks),
                     (false, 1, false, 2) => run_strats!(e1_d1_q2, Ix1, tag, &ds, &qs, strat, &mut checks),
